@@ -2,6 +2,7 @@
 from __future__ import annotations
 
 import collections
+import functools
 import dataclasses
 import enum
 import typing
@@ -377,6 +378,42 @@ class Const:
 CONST = Const()
 
 
+class InternObj:
+  """A registered dict-based class with an interning __new__ that can be
+  called without arguments."""
+  _instances = {}
+
+  def __new__(cls, key='default', payload=None):
+    inst = cls._instances.get(key)
+    if inst is None:
+      inst = super().__new__(cls)
+      cls._instances[key] = inst
+    return inst
+
+  def __init__(self, key='default', payload=None):
+    self.key = key
+    self.payload = payload
+
+  def __canon__(self):
+    return (self.key, self.payload)
+
+  def __eq__(self, other):
+    return type(other) is InternObj and (self.key, self.payload) == (
+        other.key, other.payload)
+
+  __hash__ = None
+
+  def __repr__(self):
+    return f'InternObj({self.key!r}, {self.payload!r})'
+
+
+def _wrap(fn):
+  @functools.wraps(fn)
+  def wrapper(*args, **kwargs):
+    return fn(*args, **kwargs)
+  return wrapper
+
+
 class Sentinel(str):
   """A str subclass used as a named constant."""
 
@@ -390,6 +427,7 @@ AUTO = Sentinel('auto')
 def _register_serialization():
   from fiddle.experimental import serialization  # pylint: disable=g-import-not-at-top
   serialization.register_dict_based_object(DictObj)
+  serialization.register_dict_based_object(InternObj)
   serialization.register_constant('vfx.nodes', 'CONST',
                                   compare_by_identity=True)
   for name in ('HALF', 'ONE', 'AUTO'):
@@ -476,3 +514,7 @@ class MakerBase:
 
 class MakerSub(MakerBase):
   pass
+
+
+# same module and qualified name as `node`, a different object
+node_wrapped = _wrap(node)
